@@ -108,6 +108,16 @@ check('C19',
       'White space at printf junctions and the final line break are not compared; formats str.format rejects are skipped.',
       'DESIGN.md C19')
 
+check('C08',
+      'stateless deviation-bounded schedule exploration (CHESS-style) of the real JobControl/Agent under controlled threads, linearizability oracle',
+      'For each of 10 harnesses (1-3 client threads issuing add/insert/spawn/clear/stop with 1-4 jobs that finish, raise or wait for a stop) '
+      'ALL schedules with <=2 deviations (thorough: 3 for the smaller harnesses, plus more harnesses) are executed on the real code with every line of '
+      'lib/job_control.py and every Thread/RLock/Event operation a switch point. Every execution is judged: no two queued jobs at once, exactly '
+      'once, raising job does not stall, drained at quiescence, background jobs reported running exactly while they run, no DEADLOCK/SPIN/OVERRUN, '
+      'start order linearizable against the sequential queue specification (brute-force over interval-respecting orders).',
+      'Baton scheduler (mc/explore/vthreads.py): one thread runs at a time; non-default successor at a blocking point costs one deviation; replay determinism self-checked every 97th schedule.',
+      'DESIGN.md C08')
+
 NOT_YET = 'check not built yet in this session (design in DESIGN.md); will be claimed when its command exists'
 
 
